@@ -114,7 +114,11 @@ class C01(Property):
                     nm = rng.choice(gen.PROP_NAMES)
                     if nm not in cur:
                         # the property is created directly, or arrives with an upgrade of the event type (Ontology.update)
-                        ops.append({'k': rng.choice(['add', 'addu']), 'n': nm, 's': rng.choice(['match', 'any'])})
+                        ops.append({'k': rng.choice(['add', 'addu', 'addu']), 'n': nm, 's': rng.choice(['match', 'any'])})
+                        if ops[-1]['k'] == 'addu' and rng.random() < 0.5:
+                            # the same upgrade, offered together with a definition of the event source that is in conflict with
+                            # ours: the update is refused after the event type was upgraded (updates are not atomic)
+                            ops[-1]['refused'] = True
                         cur.append(nm)
                 elif len(cur) > 1:
                     nm = rng.choice(cur)
@@ -205,7 +209,15 @@ class C01(Property):
                     et2 = o2.get_event_type('t')
                     et2.create_property(op['n'], 'o').make_optional().make_multivalued().set_merge_strategy(op['s'])
                     et2.set_version(et.get_version() + 1)
-                    o.update(o2)
+                    if op.get('refused'):
+                        from edxml.error import EDXMLOntologyValidationError
+                        o2.get_event_source('/a/').set_description('described differently')
+                        try:
+                            o.update(o2)
+                        except EDXMLOntologyValidationError:
+                            pass
+                    else:
+                        o.update(o2)
                 elif op['k'] == 'del':
                     et.remove_property(op['n'])
                 outs.append(None)
@@ -230,7 +242,8 @@ class C01(Property):
     def requests(self, case):
         if case['kind'] == 'memo':
             # using the ontology is no operation of the model
-            mops = [dict(op, k='add') if op['k'] == 'addu' else op for op in case['ops'] if op['k'] != 'use']
+            mops = [{k: v for k, v in dict(op, k='add').items() if k != 'refused'} if op['k'] == 'addu' else op
+                    for op in case['ops'] if op['k'] != 'use']
             return [{'op': 'memo', 'props': case['ptypes'], 'ops': mops}]
         hashed = [n for n, m in case['ptypes'] if m == 'match']
         return [{'op': 'hash', 'fn': case['fn'], 'enc': case['enc'], 'hashed': hashed, 'event': case['event']}]
